@@ -226,6 +226,120 @@ func registerNatives(e *Engine) {
 		return e.mkError(st, concStrArg(cc.Args[0])), true
 	})
 
+	// Parser stubs: return an arbitrary value of the documented range (the text is a placeholder),
+	// or the value the harness queued with PushIP / PushNum.
+	popQ := func(st *State, id int) (Value, bool) {
+		o, ok := st.heap[id]
+		if !ok {
+			return nil, false
+		}
+		q := o.(NativeV).V.([]Value)
+		if len(q) == 0 {
+			return nil, false
+		}
+		st.dirty = true
+		st.heap[id] = NativeV{Tag: "queue", V: append([]Value(nil), q[1:]...)}
+		return q[0], true
+	}
+	peekQ := func(st *State, id int) (Value, bool) {
+		o, ok := st.heap[id]
+		if !ok {
+			return nil, false
+		}
+		q := o.(NativeV).V.([]Value)
+		if len(q) == 0 {
+			return nil, false
+		}
+		return q[0], true
+	}
+	pushQ := func(st *State, id int, x Value) {
+		var q []Value
+		if o, ok := st.heap[id]; ok {
+			q = o.(NativeV).V.([]Value)
+		}
+		st.dirty = true
+		st.heap[id] = NativeV{Tag: "queue", V: append(append([]Value(nil), q...), x)}
+	}
+	e.reg(V+"PushIP", func(e *Engine, st *State, cc *CallCtx) (Value, bool) {
+		pushQ(st, ipQueueID, cc.Args[0])
+		return nil, true
+	})
+	e.reg(V+"PushNum", func(e *Engine, st *State, cc *CallCtx) (Value, bool) {
+		pushQ(st, numQueueID, cc.Args[0])
+		return nil, true
+	})
+	e.reg(V+"IPStringToBytes", func(e *Engine, st *State, cc *CallCtx) (Value, bool) {
+		s := e.normStr(cc.Args[0].(StrV))
+		if !s.Conc {
+			panic(unsupported("IPStringToBytes stub needs a concrete placeholder"))
+		}
+		if s.S == "" || strings.HasPrefix(s.S, "bad") {
+			return TupleV{e.Zero(types.NewSlice(types.Typ[types.Uint8])), c.False(), e.mkError(st, "IP parse: incorrect format")}, true
+		}
+		if qv, ok := popQ(st, ipQueueID); ok {
+			src := qv.(SliceV)
+			arr, off, ln := e.bytesOf(st, src)
+			if !ln.IsConst() {
+				panic(unsupported("queued IP of symbolic length"))
+			}
+			na := e.copyCells(st, c.ConstArr(8, c.Const(0, 8)), e.k64(0), arr, off, ln)
+			id := e.newObj()
+			st.heap[id] = BArrV{A: na, Len: ln, EW: 8}
+			return TupleV{SliceV{Base: Ptr{Obj: id}, Off: e.k64(0), Len: ln, Cap: ln}, c.Bool(ln.Val == 4), IfaceV{}}, true
+		}
+		n := uint64(4)
+		if strings.Contains(s.S, ":") {
+			n = 16
+		}
+		b := e.freshBytes(st, e.k64(n), "ip")
+		return TupleV{b, c.Bool(n == 4), IfaceV{}}, true
+	})
+	parseStub := func(signed bool) NativeFn {
+		return func(e *Engine, st *State, cc *CallCtx) (Value, bool) {
+			s := e.normStr(cc.Args[0].(StrV))
+			if s.Conc && strings.HasPrefix(s.S, "bad") {
+				return TupleV{e.k64(0), e.mkError(st, "strconv: invalid syntax")}, true
+			}
+			bits := cc.Args[2].(*smt.Term)
+			if !bits.IsConst() {
+				panic(unsupported("Parse stub with symbolic bit size"))
+			}
+			bw := bits.Val
+			if bw == 0 {
+				bw = 64
+			}
+			if qv, ok := peekQ(st, numQueueID); ok {
+				x := qv.(*smt.Term)
+				inRange := c.True()
+				if bw < 64 {
+					if signed {
+						lim := int64(1) << (bw - 1)
+						inRange = c.And(c.Sge(x, c.Const(uint64(-lim), 64)), c.Slt(x, c.Const(uint64(lim), 64)))
+					} else {
+						inRange = c.Ult(x, c.Const(uint64(1)<<bw, 64))
+					}
+				}
+				okRange := e.branch(st, inRange) // before the queue is popped (no mutation before a fork)
+				popQ(st, numQueueID)
+				if okRange {
+					return TupleV{x, IfaceV{}}, true
+				}
+				return TupleV{e.k64(0), e.mkError(st, "strconv: value out of range")}, true
+			}
+			x := e.fresh(st, "i64", "parsed", 64)
+			if bw < 64 {
+				if signed {
+					lim := int64(1) << (bw - 1)
+					e.assume(st, c.And(c.Sge(x, c.Const(uint64(-lim), 64)), c.Slt(x, c.Const(uint64(lim), 64))))
+				} else {
+					e.assume(st, c.Ult(x, c.Const(uint64(1)<<bw, 64)))
+				}
+			}
+			return TupleV{x, IfaceV{}}, true
+		}
+	}
+	e.reg(V+"ParseInt", parseStub(true))
+	e.reg(V+"ParseUint", parseStub(false))
 	// EqBytes: byte-wise equality of two slices as ONE term (no per-byte path split)
 	e.reg(V+"EqBytes", func(e *Engine, st *State, cc *CallCtx) (Value, bool) {
 		a, b := cc.Args[0].(SliceV), cc.Args[1].(SliceV)
@@ -309,7 +423,11 @@ func registerNatives(e *Engine) {
 	registerStd(e)
 }
 
-const hashRegID = -1
+const (
+	hashRegID  = -1
+	ipQueueID  = -2
+	numQueueID = -3
+)
 
 type hashEnt struct {
 	key  []*smt.Term
